@@ -49,3 +49,9 @@ def _nt_swallow(pid, v):
     facts = (v["case"].get("facts") or {})
     return (pid in ("C03", "C05") and facts.get("nt_swallow_reproduces") is True
             and v["clause"] in ("accepted-rejected-input", "ref-decode-neq", "swallowed-as-default"))
+
+
+@scope("F-UNION-PACK-FIXED-TUPLE")
+def _union_pack_tuple(pid, v):
+    facts = (v["case"].get("facts") or {})
+    return pid == "C11" and v["clause"] == "union-encode-neq" and facts.get("earlier_fixed_tuple_reproduces") is True
